@@ -17,26 +17,27 @@ from worlds import batch
 
 PROPERTY = 'C20'
 LEVEL = 'fault_enumeration'
-RUNS = {'quick': 2500, 'thorough': 50000}
+RUNS = {'quick': 1800, 'thorough': 40000}
 RULE = ('scenario = one seeded healthy base file (RP66V1 logical / RP66V1 physical-only; LIS plain / TIF / TIF-reversed starting with reel, tape or '
         'file header; LAS 1.2 / 2.0; BIT; DAT) or a random byte string, plus an explicit list of fault sets applied one at a time: truncation at every '
         'structural boundary and +-1 (capped, seeded subset beyond the cap), bit flips in the first 512 bytes and at length/type fields, seeded '
         'zero/overwrite/dup/swap/append/empty/foreign faults; every member is identified by the real binary_file_type under a step budget of 2e5+400*len. '
         'evaluations counts identifications; non-trivial = the fault changed the bytes read or a reach probe fired (each code returned for a healthy file, '
-        'foreign detectors answered, LIS probe entered on non-LIS bytes, DAT probe entered on ASCII bytes, >50% of the budget used); distinct = '
+        'foreign detectors answered, LIS probe entered on non-LIS bytes, DAT probe entered on ASCII bytes, >10% of the budget used); distinct = '
         'distinct (format family, fault kind, position class, returned code) tuples')
 REAL = ['TotalDepth.util.bin_file_type.binary_file_type / binary_file_type_from_path and every probe below it (LIS File/FileIndexer, DAT_parser, ReadBIT, SEGY, LAS sniffers)']
 STUB = ['file object -> SimFile (cursor and content checked after the call); a real scratch file for binary_file_type_from_path',
         'input files -> independent producers + sim/damage.py']
 ASSUMPTIONS = [
+    'simulated machine: every process that runs library code has a 4 GiB address space (sim/runner.py MEMORY_LIMIT_BYTES); a request for more fails at once with MemoryError',
     'nothing is demanded about which code a damaged file gets, only: a documented code or the empty string, no exception, within the step budget, file readable from the start afterwards',
     'TIF-marked LIS files whose first physical record is exactly 276 bytes are excluded from the healthy expectation (they share the BIT signature, as the property says)',
     'step budget counts Python-level events (PY_START + JUMP); a hang inside a C extension would surface as a wall-clock harness error',
     'files up to ~40 kB (big DAT preambles, LIS files of several hundred physical records)',
 ]
-PROBES = ['healthy_big_dat', 'healthy_lis_gt100_prs', 'healthy_RP66V1', 'healthy_LIS', 'healthy_LISt', 'healthy_LIStr', 'healthy_LAS1.2', 'healthy_LAS2.0', 'healthy_BIT', 'healthy_DAT',
-          'foreign_detected', 'lis_probe_on_non_lis', 'dat_probe_on_ascii', 'budget_gt_half', 'from_path', 'random_bytes', 'damaged_still_identified',
-          'damaged_unidentified', 'exception_class_seen']
+PROBES = ['same_object_reused', 'healthy_big_dat', 'healthy_lis_gt100_prs', 'healthy_RP66V1', 'healthy_LIS', 'healthy_LISt', 'healthy_LIStr', 'healthy_LAS1.2', 'healthy_LAS2.0', 'healthy_BIT', 'healthy_DAT',
+          'foreign_detected', 'lis_probe_on_non_lis', 'dat_probe_on_ascii', 'budget_gt_10pct', 'from_path', 'random_bytes', 'damaged_still_identified',
+          'damaged_unidentified']
 EXPECTED = {'dlis': 'RP66V1', 'dlis_phys': 'RP66V1', 'bit': 'BIT', 'dat': 'DAT'}
 FAMILIES = ['dlis', 'dlis_phys', 'lis', 'lis', 'las', 'bit', 'dat', 'random', 'foreign']
 
@@ -79,7 +80,7 @@ def generate(seed, tier):
     gen = {'world': fam, 'seed': rng.getrandbits(32)}
     if fam in ('dlis', 'lis', 'bit'):
         gen['frames'] = rng.pick([2, 6, 20])
-    if fam == 'lis' and rng.chance(0.25):
+    if fam == 'lis' and rng.chance(0.45):
         gen['small_pr'] = True           # > 100 physical records: the answer must not depend on size
         gen['frames'] = rng.pick([40, 120])
     if fam == 'dat' and rng.chance(0.3):
@@ -157,7 +158,8 @@ def generate(seed, tier):
             if rng.chance(0.2):
                 fs.append(damage.gen_fault(rng, n, fields, kinds=['truncate', 'bitflip', 'zero_block']))
             fault_sets.append(fs)
-    return {'world': 'typing', 'gen': gen, 'fault_sets': fault_sets, 'from_path_every': rng.pick([7, 13, 29])}
+    return {'world': 'typing', 'gen': gen, 'fault_sets': fault_sets, 'from_path_every': rng.pick([7, 13, 29]),
+            'reuse_object': rng.chance(0.5)}
 
 
 def pos_class(fs, n):
@@ -176,8 +178,9 @@ def pos_class(fs, n):
     return 'back'
 
 
-def identify(by, budget, via_path=None):
-    """Returns (outcome, detail, steps, post). outcome: 'ok' | 'exc' | 'budget'."""
+def identify(by, budget, via_path=None, shared=None):
+    """Returns (outcome, detail, steps, post). outcome: 'ok' | 'exc' | 'budget'.
+    shared: a SimFile object that is re-used from one identification to the next with new content."""
     if via_path:
         with open(via_path, 'wb') as f:
             f.write(by)
@@ -189,7 +192,11 @@ def identify(by, budget, via_path=None):
             return 'budget', '', sb.count, None
         except BaseException as err:
             return 'exc', err, sb.count, None
-    f = SimFile(by, EventClock(), name='x', log=False)
+    if shared is not None:
+        f = shared
+        f.set_content(by)
+    else:
+        f = SimFile(by, EventClock(), name='x', log=False)
     sb = StepBudget(budget)
     try:
         with sb:
@@ -217,15 +224,23 @@ def execute(scenario):
     distinct = set()
     n_eval = 0
     n_nontrivial = 0
+    shared = SimFile(b'', EventClock(), name='x', log=False) if scenario.get('reuse_object') else None
+    fault_list = list(scenario['fault_sets'])
+    if shared is not None and len(fault_list) > 2:
+        # the healthy bytes again, through the same (re-used) file object, in the middle and at the end of the history
+        fault_list = fault_list[:len(fault_list) // 2] + [[]] + fault_list[len(fault_list) // 2:] + [[]]
+        res.probe('same_object_reused')
+    first_answer = {}
+    max_frac = 0.0
     try:
-        for k, fs in enumerate(scenario['fault_sets']):
+        for k, fs in enumerate(fault_list):
             data = damage.apply_all(by, fs) if fs else by
             fired = data != by
             for f in fs:
                 res.fault(f[0]) if fired else None
             budget = 200_000 + 400 * len(data)
             via = os.path.join(scratch, 'f.bin') if (k % scenario.get('from_path_every', 13) == 0) else None
-            outcome, detail, steps, post = identify(data, budget, via)
+            outcome, detail, steps, post = identify(data, budget, via, shared)
             n_eval += 1
             res.op('identify_path' if via else 'identify')
             if via:
@@ -244,14 +259,27 @@ def execute(scenario):
             if outcome == 'budget':
                 res.violation('identify-no-progress', f'fault set {k} {fs} on a {fam} file of {len(by)} bytes: more than {budget} steps', **facts)
                 continue
-            if steps > budget // 2:
-                res.probe('budget_gt_half')
+            max_frac = max(max_frac, steps / budget)
+            if steps > budget // 10:
+                res.probe('budget_gt_10pct')
             code = detail
             if not isinstance(code, str) or code not in allowed:
                 res.violation('identify-code', f'fault set {k} {fs}: returned {code!r}, not a documented code', **facts)
                 continue
             if post is not None and (post[0] != 0 or not post[1]):
                 res.violation('identify-file-state', f'fault set {k} {fs}: after identification tell()={post[0]}, read() returns the content: {post[1]}', code=code, **facts)
+            # the answer is a function of the bytes: not of what the same file object held before
+            key_ = seeds.digest(data)
+            if key_ in first_answer and first_answer[key_] != code:
+                res.violation('identify-depends-on-history', f'fault set {k} {fs}: the same {len(data)} bytes were identified as {first_answer[key_]!r} earlier '
+                              f'and as {code!r} now (same file object re-used with other content in between: {shared is not None})', first=first_answer[key_], now=code, **facts)
+            first_answer.setdefault(key_, code)
+            if shared is not None and not via and k % 9 == 4:
+                o2, d2, _, _ = identify(data, budget, None, None)
+                n_eval += 1
+                if o2 == 'ok' and d2 != code:
+                    res.violation('identify-depends-on-history', f'fault set {k} {fs}: a fresh file object with the same bytes is identified as {d2!r}, the re-used object as {code!r}',
+                                  first=d2, now=code, **facts)
             if not fs:
                 if fam == 'random':
                     res.probe('random_bytes')
@@ -281,22 +309,30 @@ def execute(scenario):
         import shutil
         shutil.rmtree(scratch, ignore_errors=True)
     res.notes['evaluations'] = n_eval
+    res.notes['max_budget_fraction'] = round(max_frac, 4)
     res.notes['nontrivial'] = n_nontrivial
     res.notes['distinct'] = sorted('|'.join(d) for d in distinct)
     res.shape = seeds.digest([fam, sorted(res.notes['distinct'])])
     return res
 
 
-def evidence_extra(ok_runs):
-    ev = sum(r['notes'].get('evaluations', 0) for r in ok_runs)
-    distinct = set()
-    for r in ok_runs:
-        distinct.update(r['notes'].get('distinct', []))
-    return {'evaluations': ev, 'distinct_nontrivial': len(distinct), 'scenarios': len(ok_runs),
-            'identifications_on_changed_bytes': sum(r['notes'].get('nontrivial', 0) for r in ok_runs),
+def evidence_accumulate(acc, r):
+    n = r['notes']
+    acc.setdefault('distinct', set()).update(n.get('distinct', []))
+    acc['evaluations'] = acc.get('evaluations', 0) + n.get('evaluations', 0)
+    acc['nontrivial'] = acc.get('nontrivial', 0) + n.get('nontrivial', 0)
+    acc['scenarios'] = acc.get('scenarios', 0) + 1
+    acc['max_frac'] = max(acc.get('max_frac', 0.0), n.get('max_budget_fraction', 0.0))
+
+
+def evidence_extra(acc):
+    return {'evaluations': acc.get('evaluations', 0), 'distinct_nontrivial': len(acc.get('distinct', ())), 'scenarios': acc.get('scenarios', 0),
+            'max_fraction_of_step_budget_used': acc.get('max_frac', 0.0),
+            'identifications_on_changed_bytes': acc.get('nontrivial', 0),
             'exhaustive': False,
             'enumeration': 'per base file: every structural boundary and +-1 for truncation (all of them up to 60, then the first 30 and a seeded 30 of the rest); '
-                           'bit flips: seeded 40 of the first 512 bytes x 8 bits plus the first 4 bytes of the first 40 structural fields'}
+                           'bit flips: seeded 40 of the first 512 bytes x 8 bits plus the first 4 bytes of the first 40 structural fields; for text formats every '
+                           'byte of the key tokens x 10 substitute characters (seeded 70 beyond that)'}
 
 
 def candidates(scenario):
